@@ -1212,6 +1212,16 @@ func genRedeemWindow(r *hlib.Rng) []Case {
 				etxs = append(etxs, x)
 			}
 			in.Blocks = append(in.Blocks, RBlock{Number: h - d, Etxs: etxs})
+			// decoys right next to the target block: they would pay if the scan were off by one
+			for _, off := range []uint64{0, 2} {
+				if nb := h - d - 1 + off; r.Chance(25) && nb >= 1 {
+					data := make([]byte, 33)
+					data[0] = byte(di)
+					in.Blocks = append(in.Blocks, RBlock{Number: nb, Etxs: []REtx{
+						{Kind: 0, To: tos[r.Intn(len(tos))], Data: data, Value: "31337000000000000"},
+						{Kind: 1, To: tos[r.Intn(len(tos))], Data: []byte{0}, Value: "4242000000000000"}}})
+				}
+			}
 		}
 		for _, a := range tos {
 			if b, ok := existing[string(a)]; ok {
